@@ -10,6 +10,7 @@
 #include <map>
 #include <random>
 #include <string>
+#include <vector>
 
 namespace
 {
@@ -191,6 +192,26 @@ static unsigned long draw_unsigned(unsigned long a, unsigned long b)
     {                                                                                                                                      \
         return draw_unsigned(p.a(), p.b());                                                                                                \
     }
+// contract mirror of std::discrete_distribution: an arbitrary index of positive probability (replay: the recorded index)
+static long draw_discrete(const std::vector<double>& prob)
+{
+    if (prob.empty()) return 0;
+    std::vector<size_t> pos;
+    for (size_t i = 0; i < prob.size(); ++i)
+        if (prob[i] > 0.0) pos.push_back(i);
+    if (pos.empty()) return 0;
+    std::string nm = fresh_name("ddist");
+    auto        it = vals.find(nm);
+    if (it != vals.end()) return (long)strtoull(it->second.c_str(), nullptr, 10);
+    if (replay) return (long)pos[0];
+    return (long)pos[name_hash(nm) % pos.size()];
+}
+template <>
+template <>
+long std::discrete_distribution<long>::operator()(std::minstd_rand&, const param_type& p)
+{
+    return draw_discrete(p.probabilities());
+}
 SBV_UDIST(std::mt19937_64)
 SBV_UDIST(std::minstd_rand)
 SBV_UDIST(std::mt19937)
